@@ -176,3 +176,151 @@ Proof.
   assert (E' : (tx ++ lx) ++ [x3d] ++ r1 = (ty ++ ly) ++ [x3d] ++ r2) by (rewrite <- !app_assoc; exact E).
   apply (app_same_length _ _ _ _ E' L).
 Qed.
+
+(* ---- a key has no line feed in it ---------------------------------------------------------------------------------- *)
+Definition nolf (t : bytes) : Prop := forallb (fun b => negb (byte_eqb b x0a)) t = true.
+
+Lemma nolf_app a b : nolf (a ++ b) <-> nolf a /\ nolf b.
+Proof. unfold nolf. rewrite forallb_app, andb_true_iff. reflexivity. Qed.
+Lemma nolf_nil : nolf [].
+Proof. reflexivity. Qed.
+Lemma nolf_class (c : byte -> bool) t : (forall b, c b = true -> byte_eqb b x0a = false) -> all c t -> nolf t.
+Proof.
+  intros Hc H. unfold nolf, all in *. rewrite forallb_forall in *. intros b Hb. rewrite (Hc b (H b Hb)). reflexivity.
+Qed.
+Lemma nolf_ws w : ws_tok w -> nolf w.
+Proof. apply nolf_class. intros b Hb. revert Hb. cls. lia. Qed.
+
+Lemma nolf_star_one (c : byte -> bool) t v : (forall b, c b = true -> byte_eqb b x0a = false) -> star (one c) t v -> nolf t.
+Proof.
+  intros Hc H. induction H as [|t1 v1 t2 v2 (b & Hb & -> & ->) _ IH]; [reflexivity|]. apply nolf_app. split; [|exact IH].
+  unfold nolf. cbn [forallb]. rewrite (Hc b Hb). reflexivity.
+Qed.
+
+Lemma escaped_nolf t v : escaped_tok t v -> nolf t.
+Proof.
+  intros [b n Hb|b k h Hb Hl Hh _].
+  - unfold nolf. cbn [forallb]. rewrite andb_true_r. apply andb_true_iff. split; [reflexivity|].
+    destruct (byte_eqb b x0a) eqn:E; [|reflexivity]. apply byte_eqb_eq in E. subst b. discriminate Hb.
+  - unfold nolf. cbn [forallb]. apply andb_true_iff. split; [reflexivity|]. apply andb_true_iff. split.
+    + destruct (byte_eqb b x0a) eqn:E; [|reflexivity]. apply byte_eqb_eq in E. subst b. discriminate Hb.
+    + apply (nolf_class Abnf.hexdig); [|exact Hh]. intros c Hc. revert Hc. cls. lia.
+Qed.
+
+Lemma basic_body_nolf t v : star basic_char t v -> nolf t.
+Proof.
+  intro H. induction H as [|t1 v1 t2 v2 H1 _ IH]; [reflexivity|]. apply nolf_app. split; [|exact IH].
+  destruct H1 as [(b & Hb & -> & ->) | H1]; [|apply (escaped_nolf _ _ H1)].
+  unfold nolf. cbn [forallb]. rewrite andb_true_r. apply negb_true_iff. revert Hb. cls. lia.
+Qed.
+
+Lemma simple_key_nolf t k : simple_key_tok t k -> nolf t.
+Proof.
+  intros [(_ & body & -> & Hb) | [(_ & body & -> & Hb) | [[_ Ha] _]]].
+  - apply nolf_app. split; [reflexivity|]. apply nolf_app. split; [apply (basic_body_nolf _ _ Hb)|reflexivity].
+  - apply nolf_app. split; [reflexivity|]. apply nolf_app. split; [|reflexivity].
+    apply (nolf_star_one literal_char _ _) in Hb; [exact Hb|]. intros b Hc. revert Hc. cls. lia.
+  - apply (nolf_class unquoted_key_char); [|exact Ha]. intros b Hc. revert Hc. cls. lia.
+Qed.
+
+Lemma key_nolf t p : key_tok t p -> nolf t.
+Proof.
+  induction 1 as [t k Ht|t k w1 w2 u ks Ht Hw1 Hw2 _ IH]; [apply (simple_key_nolf _ _ Ht)|].
+  repeat (apply nolf_app; split); [apply (simple_key_nolf _ _ Ht)|apply nolf_ws, Hw1|reflexivity|apply nolf_ws, Hw2|exact IH].
+Qed.
+
+(* ---- where the line of a key starts ---------------------------------------------------------------------------------- *)
+Definition bomlen (s : bytes) : nat := match strip_prefix Document.bom s with Some _ => 3 | None => 0 end.
+
+Fixpoint after_last_lf (l : bytes) (p : nat) (acc : option nat) : option nat :=
+  match l with
+  | [] => acc
+  | b :: tl => after_last_lf tl (S p) (if byte_eqb b x0a then Some (S p) else acc)
+  end.
+(* the start of the line that holds position ra: after the last LF before ra, or after the byte-order mark *)
+Definition lsb (s : bytes) (ra : nat) : nat :=
+  match after_last_lf (firstn ra s) 0 None with Some p => p | None => bomlen s end.
+
+Definition lstart (s : bytes) (n : nat) : Prop := n = bomlen s \/ exists A r, s = A ++ [x0a] ++ r /\ n = length A + 1.
+
+Lemma after_last_lf_app l1 : forall l2 p acc,
+  after_last_lf (l1 ++ l2) p acc = after_last_lf l2 (p + length l1) (after_last_lf l1 p acc).
+Proof.
+  induction l1 as [|b l1 IH]; intros l2 p acc; cbn [app after_last_lf length]; [rewrite Nat.add_0_r; reflexivity|].
+  rewrite IH. f_equal. lia.
+Qed.
+Lemma after_last_lf_nolf l : nolf l -> forall p acc, after_last_lf l p acc = acc.
+Proof.
+  unfold nolf. induction l as [|b l IH]; intros H p acc; [reflexivity|]. cbn [forallb after_last_lf] in *.
+  apply andb_true_iff in H as [Hb Hl]. apply negb_true_iff in Hb. rewrite Hb. apply IH, Hl.
+Qed.
+
+Lemma lsb_spec s P Y r : s = P ++ Y ++ r -> nolf Y -> lstart s (length P) -> lsb s (length P + length Y) = length P.
+Proof.
+  intros Es HY Hl. unfold lsb.
+  assert (Ef : firstn (length P + length Y) s = P ++ Y).
+  { rewrite Es, app_assoc. rewrite <- app_length. apply firstn_app_len. }
+  rewrite Ef, after_last_lf_app, (after_last_lf_nolf Y HY).
+  destruct Hl as [Hb | (A & r' & EA & Hn)].
+  - (* the text before is the byte-order mark, or nothing *)
+    assert (HP : nolf P).
+    { unfold bomlen in Hb. destruct (strip_prefix Document.bom s) as [r0|] eqn:Q.
+      - apply strip_prefix_spec in Q. rewrite Es in Q. destruct P as [|a [|b [|c [|d P']]]]; try (cbn in Hb; lia).
+        cbn [app] in Q. injection Q as -> -> -> _. reflexivity.
+      - destruct P; [reflexivity|discriminate Hb]. }
+    rewrite (after_last_lf_nolf P HP). exact (eq_sym Hb).
+  - assert (EP : P = A ++ [x0a]).
+    { rewrite Es in EA. assert (L : length P = length (A ++ [x0a])) by (rewrite app_length; cbn [length]; lia).
+      assert (EA' : P ++ (Y ++ r) = (A ++ [x0a]) ++ r') by (rewrite <- app_assoc; exact EA).
+      apply (app_same_length _ _ _ _ EA' L). }
+    rewrite EP, after_last_lf_app. cbn [after_last_lf]. rewrite byte_eqb_refl. rewrite app_length. cbn [length]. f_equal. lia.
+Qed.
+
+(* ---- the check on a key/value line of the tree, and what it gives --------------------------------------------------- *)
+Definition kline_ok (s : bytes) (ks : list key) (k' : key) : bool :=
+  match k_repr k' with
+  | Some (RSpanned ra rb) =>
+    let X := pre_text s ks k' in
+    let jx := N.to_nat ra - length X in
+    (length X <=? N.to_nat ra)
+    && starts_with (X ++ krepr s k' ++ decor_suffix (k_leaf (tkey s k')) (snd DEFAULT_KEY_DECOR) ++ [x3d]) (skipn jx s)
+    && match d_prefix (k_leaf k') with
+       | Some (RSpanned p q) => Nat.eqb (N.to_nat q) jx
+       | Some REmpty => Nat.eqb (lsb s (N.to_nat ra)) jx
+       | _ => false
+       end
+  | _ => false
+  end.
+
+Theorem kline_unique s j0 i0 ja jb ks po k' LS r :
+  isrc s j0 -> rest j0 = (pre_text s po k' ++ krepr s k') ++ LS ++ [x3d] ++ r ->
+  decor_suffix (k_leaf (tkey s k')) (snd DEFAULT_KEY_DECOR) = LS -> ws_tok LS ->
+  k_repr k' = Some (raw_with_span (pos ja, pos jb)) -> pos ja = (pos j0 + N.of_nat (length (pre_text s po k')))%N -> pos ja <> pos jb ->
+  d_prefix (k_leaf k') = Some (raw_with_span (pos i0, pos j0)) -> (pos i0 = pos j0 -> lstart s (N.to_nat (pos j0))) ->
+  Forall (hkey s) po -> Forall (hkey s) ks -> lkey s k' ->
+  kline_ok s ks k' = true -> pre_text s ks k' = pre_text s po k'.
+Proof.
+  intros Hj0 Rj ELS HLS Erepr Eja Hne Epre Hls Hpo Hks Hk' Hok.
+  set (X := pre_text s ks k') in *. set (Y := pre_text s po k') in *. set (R := krepr s k') in *.
+  destruct (pre_shape s ks k' Hks Hk') as (tx & Htx & Etx). destruct (pre_shape s po k' Hpo Hk') as (ty & Hty & Ety). fold X R in Etx. fold Y R in Ety.
+  destruct Hj0 as (p & Es & Ep).
+  unfold kline_ok in Hok. rewrite Erepr in Hok. unfold raw_with_span in Hok. cbn [fst snd] in Hok.
+  destruct (pos ja =? pos jb)%N eqn:Q; [apply N.eqb_eq in Q; congruence|]. fold X R in Hok. rewrite ELS in Hok. cbv zeta in Hok.
+  apply andb_true_iff in Hok as [Hok Hanchor]. apply andb_true_iff in Hok as [Hle Hsw]. apply Nat.leb_le in Hle.
+  (* the key text starts where the line's key starts *)
+  assert (Ejx : N.to_nat (pos ja) - length X = length p).
+  { rewrite Epre in Hanchor. unfold raw_with_span in Hanchor. cbn [fst snd] in Hanchor. destruct (pos i0 =? pos j0)%N eqn:Q0.
+    - apply N.eqb_eq in Q0. apply Nat.eqb_eq in Hanchor. rewrite <- Hanchor.
+      assert (Era : N.to_nat (pos ja) = length p + length Y) by lia. rewrite Era.
+      apply (lsb_spec s p Y (R ++ LS ++ [x3d] ++ r)).
+      + rewrite Es, Rj, <- !app_assoc. reflexivity.
+      + pose proof (key_nolf _ _ Hty) as Hn. rewrite <- Ety in Hn. apply nolf_app in Hn as [Hn _]. exact Hn.
+      + specialize (Hls Q0). rewrite Ep, Nat2N.id in Hls. exact Hls.
+    - apply Nat.eqb_eq in Hanchor. rewrite <- Hanchor. lia. }
+  rewrite Ejx in Hsw. unfold starts_with in Hsw. destruct (strip_prefix _ _) as [r1|] eqn:Q1; [|discriminate]. apply strip_prefix_spec in Q1.
+  rewrite Es, skipn_app_len, Rj in Q1.
+  assert (E : ty ++ LS ++ [x3d] ++ r = tx ++ LS ++ [x3d] ++ r1).
+  { rewrite <- Etx, <- Ety. rewrite <- ?app_assoc in Q1. rewrite <- ?app_assoc. exact Q1. }
+  pose proof (key_text_unique _ _ _ _ _ _ _ _ Hty HLS Htx HLS E) as E2. apply app_inv_tail in E2. rewrite <- Etx, <- Ety in E2.
+  apply app_inv_tail in E2. symmetry. exact E2.
+Qed.
